@@ -610,7 +610,7 @@ fn run_family(fi: usize, fam: &Family, pools: bool) -> Report {
         for c in rg {
             let (lo, hi) = (c * chunk, ((c + 1) * chunk).min(fam.len));
             // quick tier: families of more than 64 slices are listened to (log arguments evaluated) on every third slice
-            crate::logsink::listen(QUICK_LISTEN_ALL.load(std::sync::atomic::Ordering::Relaxed) || chunks <= 64 || c % 5 == 0);
+            crate::logsink::listen(if QUICK_LISTEN_ALL.load(std::sync::atomic::Ordering::Relaxed) { c % 5 != 4 } else { chunks <= 64 || c % 5 == 0 });
             let mut s = Session::new();
             let mut slow: u128 = 0;
             let mut all: Vec<Vec<u8>> = vec![];
@@ -1124,6 +1124,31 @@ fn stream_families(thorough: bool) -> Vec<SFamily> {
             .into_bytes()
         }),
     });
+    // ClientHellos whose text fields (server name, every ALPN value) hold characters of 2, 3 and 4 bytes first, last, alone
+    // and in the middle: whoever takes "the first / last character" of such a field by byte position slices inside one
+    {
+        let mut forms: Vec<String> = vec![];
+        for c in ["\u{e9}", "\u{20ac}", "\u{1f600}"] {
+            for f in [format!("{c}"), format!("{c}2"), format!("h{c}"), format!("{c}{c}"), format!("h{c}2"), format!("{c}h2{c}"), format!("h2{c}h")] {
+                forms.push(f);
+            }
+        }
+        let n = forms.len();
+        v.push(SFamily {
+            name: "clienthello-text-fields-with-multibyte-characters".into(),
+            len: n * 3,
+            gen: Box::new(move |i| {
+                use crate::gen::tls::{bytes, Ext, Hello};
+                let x = forms[i % n].clone();
+                let exts = match i / n {
+                    0 => vec![Ext::Sni("example.org".into()), Ext::Alpn(vec![x])],
+                    1 => vec![Ext::Sni(x), Ext::Alpn(vec!["h2".into()])],
+                    _ => vec![Ext::Alpn(vec!["h2".into(), x.clone(), x])],
+                };
+                bytes(&Hello { exts, ..Hello::default() })
+            }),
+        });
+    }
     for (name, base) in [("clienthello-record", p.hello.clone()), ("http2-request-stream", p.h2req.clone()), ("http2-response-stream", p.h2resp.clone()), ("http1-request", p.h1req.clone()), ("http1-response", p.h1resp.clone())] {
         v.push(mutations_of(name, base));
     }
@@ -1139,7 +1164,7 @@ fn run_stream_family(fi: usize, fam: &SFamily) -> Report {
         let mut r = Report::new();
         for c in rg {
             let (lo, hi) = (c * chunk, ((c + 1) * chunk).min(fam.len));
-            crate::logsink::listen(QUICK_LISTEN_ALL.load(std::sync::atomic::Ordering::Relaxed) || chunks <= 32 || c % 5 == 0);
+            crate::logsink::listen(if QUICK_LISTEN_ALL.load(std::sync::atomic::Ordering::Relaxed) { c % 5 != 4 } else { chunks <= 32 || c % 5 == 0 });
             let mut s = StreamSession::new();
             let mut start = lo;
             for i in lo..hi {
@@ -1463,6 +1488,8 @@ fn run_capture_files(thorough: bool) -> Report {
 // ------------------------------------------------------------------------------------------------ entry points
 pub fn run(thorough: bool) -> Outcome {
     QUICK_LISTEN_ALL.store(thorough, std::sync::atomic::Ordering::Relaxed);
+    // this check decides per slice whether anybody listens to the log (both environments occur in both tiers)
+    crate::report::SECOND_PASS.store(false, std::sync::atomic::Ordering::Relaxed);
     // the pools' worker threads log only in the thorough tier (the same calls are listened to on the sequential path)
     crate::logsink::listen_default(thorough);
     huginn_net_tcp::uptime::verif_clock::set_global(T0);
